@@ -6,6 +6,7 @@ import (
 	"fmt"
 	"io"
 	"net"
+	"sync"
 	"sync/atomic"
 
 	"github.com/caddyserver/caddy/v2"
@@ -40,6 +41,7 @@ type VM struct {
 	V    string `json:"v"`
 	W    string `json:"w"`
 	From int    `json:"from"`
+	Kind string `json:"kind,omitempty"` // when set: applies only to connections of this scenario role, "N" otherwise
 	slot int
 }
 
@@ -53,6 +55,9 @@ func (m *VM) CaddyModule() caddy.ModuleInfo {
 
 func (m *VM) Match(cx *layer4.Connection) (bool, error) {
 	rec := recOf(cx)
+	if m.Kind != "" && (rec == nil || rec.Kind != m.Kind) {
+		return false, nil
+	}
 	vis := len(cx.MatchingBytes())
 	var err error
 	if m.At > 0 {
@@ -170,6 +175,10 @@ func ListEnded(rec *Recorder, before int) (string, bool) {
 // association ids of the "udp" handler kind
 var assocCounter atomic.Int64
 
+// AssocByPtr maps the identity of the virtual connection (the pointer the hooks see) to the
+// association id its handler announced.
+var AssocByPtr sync.Map
+
 func ResetAssocCounter() { assocCounter.Store(0) }
 
 // UDPGate, when set, is called by the "udp" handler after each datagram and before it
@@ -182,6 +191,7 @@ var UDPGate func(point string, a int, client string)
 func (h *VH) handleUDP(cx *layer4.Connection, rec *Recorder) error {
 	a := int(assocCounter.Add(1))
 	client := ClientOfAddr(cx.RemoteAddr())
+	AssocByPtr.Store(fmt.Sprintf("%p", cx.Conn), a)
 	rec.Add(Ev{"e": "New", "a": a, "c": client})
 	bufSize := h.Buf
 	if bufSize < DgMin {
